@@ -98,6 +98,8 @@ def main():
         for f in futs:
             (kind, cid, patch, target), res = f.result()
             if kind == 'seeded':
+                if target not in res:
+                    continue
                 rc = res.get(target, (None, ''))[0]
                 verdict = {1: 'caught', 2: 'UNDECIDED', 0: 'MISSED', None: 'not run'}[rc]
                 if rc is None and target in res and res[target][1].startswith('patch does not apply'):
